@@ -37,11 +37,13 @@ GRIDS = {
     8: [0.01, 0.03, 0.07, 0.15, 0.3, 0.5, 0.75, 1.0],
 }
 T1, T2, T3 = [3.0, 4], [6.0, 5], [10.0, 5]
+T4 = [6.0, 4]  # same scale as T2, other nf
 CARDS = {
     "lo-ffns": dict(order=[1, 0], mugrid=[T1], method="truncated"),
     "nlo-thr": dict(order=[2, 0], mugrid=[T2], method="iterate-exact", iterations=3),
     "lo-thr": dict(order=[1, 0], mugrid=[T2], method="truncated"),
     "nlo-ffns": dict(order=[2, 0], mugrid=[T1], method="truncated"),
+    "nlo-k2": dict(order=[2, 0], mugrid=[T1], method="truncated", ratios=[1.0, 2.0, 1.0]),
 }
 
 _BASE = {}
@@ -71,7 +73,7 @@ def _cmp(res, sig, what, card, grid, ops):
     for ep, (op, err) in ops.items():
         tgt = [float(np.sqrt(ep[0])), ep[1]]
         # recover the target as written in the card
-        for t in (T1, T2, T3):
+        for t in (T1, T2, T3, T4, [9.0, 5]):
             if abs(t[0] ** 2 - ep[0]) < 1e-9 and t[1] == ep[1]:
                 tgt = t
         bop, berr = _baseline(card, grid, tgt)
@@ -177,6 +179,15 @@ def run(ctx):
     for r in (1, 2, 3):
         for sub in itertools.permutations([T1, T2, T3], r):
             cases.append(dict(kind="targets", card=tcard, mugrid=[list(t) for t in sub]))
+    # two targets at the same scale with different nf, alone and with the others
+    for sub in itertools.permutations([T1, T2, T3, T4], 2):
+        if T4 in sub:
+            cases.append(dict(kind="targets", card=tcard, mugrid=[list(t) for t in sub]))
+    for sub in itertools.permutations([T2, T3, T4], 3):
+        cases.append(dict(kind="targets", card=tcard, mugrid=[list(t) for t in sub]))
+    # a card whose coupling is discontinuous at the matching scale (NLO, matching ratio 2)
+    for sub in itertools.permutations([T1, T3, [9.0, 5]], 2):
+        cases.append(dict(kind="targets", card="nlo-k2", mugrid=[list(t) for t in sub]))
     if thorough:
         for r in (2, 3):
             for sub in itertools.permutations([T1, T2, T3], r):
